@@ -71,10 +71,18 @@ def module_traces(names, optimize_opts=(False, True)):
     return traces
 
 
+def decl_of(spec):
+    """the declaration structure of a recipe module (imports / own axioms), handed to TLC which computes the declared theory"""
+    return {'imports': [decl_of(m) for m in spec.get('imports', [])], 'axioms': list(spec.get('axioms', [])), 'raw': bool(spec.get('raw_axioms', False))}
+
+
 def validate(v, tag, name, traces, timeout=3000):
     wd = workdir(name)
     path = os.path.join(wd, 'traces.ndjson')
     EK = ('m', 'out', 'bytes', 'phase', 'len', 'top', 'mem', 'memlen', 'cc', 'claims', 'syms')
+    for t in traces:
+        t['final'].setdefault('hasdecl', False)
+        t['final'].setdefault('decl', {'imports': [], 'axioms': [], 'raw': False})
     write_ndjson(path, [{'phase': t['phase'], 'claims': t['claims'], 'final': t['final'],
                          'events': [{k: e[k] for k in EK} for e in t['events']]} for t in traces])
     pi2v.log(f'[{tag}] {name}: trace file {os.path.getsize(path) >> 20} MB')
